@@ -12,25 +12,51 @@ class UnsupportedShape(Exception):
     pass
 
 
-def type_gates(vs, base, variant, mask):
-    """(number of awaitables of type resolution, ok?, runtime type) for an object value."""
+def type_gates(vs, base, variant, mask, modes):
+    """Type resolution of an object value at a position of declared type `base`:
+    (number of awaitables the position waits for, ok?, runtime type, number of awaitable
+    predicates that are only tracked in the background)."""
+    from tools.c03_loop import OBJECT_TYPES, possible_order
+
     ito_on = vs.get("ito_aw") is not None and vs["ito_aw"] in mask
     rt_on = vs.get("rt_aw") is not None and vs["rt_aw"] in mask
     tn, ito = vs.get("tn", "T"), vs.get("ito", True)
+
+    def check(name):
+        """is_type_of of the resolved type in complete_object_value: (gates, ok)"""
+        mode = modes.get(name, "aw")
+        if mode == "none":
+            return 0, True
+        return (1 if (mode == "aw" and ito_on) else 0), bool(tn == name and ito)
+
     if base in ABSTRACT:
         if variant == "A":
             g = 1 if rt_on else 0
-            if tn not in ("T", "V"):
-                return g, False, None
-            return g + (1 if ito_on else 0), bool(ito), tn
-        found = tn if (tn in ("T", "V") and ito) else None
-        if ito_on:
-            g = 2
-            if found is None:
-                return g, False, None
-            return g + 1, True, found
-        return 0, found is not None, found
-    return (1 if ito_on else 0), bool(tn == base and ito), tn
+            if tn not in OBJECT_TYPES:
+                return g, False, None, 0
+            g2, ok = check(tn)
+            return g + g2, ok, tn, 0
+        n_aw = 0
+        found = None
+        for name in possible_order(variant, modes, base):
+            mode = modes.get(name, "aw")
+            if mode == "none":
+                continue
+            pred = bool(tn == name and ito)
+            if mode == "aw" and ito_on:
+                n_aw += 1
+            elif pred:
+                # a synchronous predicate matches: earlier awaitable ones are only tracked
+                g2, ok = check(name)
+                return g2, ok, name, n_aw
+        if n_aw and tn in OBJECT_TYPES and modes.get(tn, "aw") == "aw" and ito:
+            found = tn
+        if found is None:
+            return n_aw, False, None, 0
+        g2, ok = check(found)
+        return n_aw + g2, ok, found, 0
+    g2, ok = check(base)
+    return g2, ok, base, 0
 
 
 def node_for(case, mask, fname, vs, subsel, is_item, forced_gate=None):
@@ -63,8 +89,11 @@ def node_for(case, mask, fname, vs, subsel, is_item, forced_gate=None):
     elif t == "obj":
         if base == "String" or (is_list and not is_item):
             raise UnsupportedShape("object at leaf/list position")
-        tg, ok, tn = type_gates(vs, base, case["variant"], mask)
+        from tools.c03_loop import modes_of
+
+        tg, ok, tn, nbg = type_gates(vs, base, case["variant"], mask, modes_of(case))
         node["g"] = own + tg
+        node["bg"] = nbg
         if not ok:
             node["res"] = ("R",)
         else:
@@ -116,6 +145,16 @@ def index_path(root, path):
         out.append(i)
         cur = cur["kids"][i]
     return out
+
+
+def node_at(root, path):
+    cur = root
+    for key in path:
+        try:
+            cur = cur["kids"][cur["keys"].index(key)]
+        except ValueError:
+            return None
+    return cur
 
 
 def response_path(root, ipath):
@@ -176,7 +215,19 @@ class Monitor:
             return
         evs = []
         unknown = None
+        # awaitable is_type_of results that the default type resolver only tracks in the
+        # background (a synchronous predicate of a later type matched): not awaited by the node
+        drop = set()
+        seen_ito = {}
         for e in events:
+            if e[0] == "H" and e[4] == "ito":
+                node = node_at(root, e[3])
+                if node is not None and node.get("bg", 0) > seen_ito.get(tuple(e[3]), 0):
+                    drop.add(e[1])
+                seen_ito[tuple(e[3])] = seen_ito.get(tuple(e[3]), 0) + 1
+        for e in events:
+            if e[0] in ("R", "C") and e[1] in drop:
+                continue
             if e[0] == "S":
                 p = index_path(root, e[1])
                 kind = "S"
